@@ -64,7 +64,9 @@ class If(Function):
 
     @property
     def emitting_channels(self) -> tuple[OutputSignal, ...]:
-        if self.outputs.truth.value is NOT_DATA:
+        if self.failed or self.outputs.truth.value is NOT_DATA:
+            # A failed evaluation announces only its failure: a truth value left over
+            # from an earlier run must not pick a branch
             return super().emitting_channels
         elif self.outputs.truth.value:
             return (*super().emitting_channels, self.signals.output.true)
